@@ -93,6 +93,12 @@ Theorem c16_announcement_cleared_iff : forall s C rs bs s' i, reach s C -> a_idx
 Proof. exact ann_cleared_iff. Qed.
 Print Assumptions c16_announcement_cleared_iff.
 
+(* the record is cleared as a whole: without an index there is neither a v1 address nor a v2 hash *)
+Theorem c16_announcement_cleared_as_a_whole : forall s C, reach s C ->
+  a_idx s = None -> a_addr s = None /\ a_hash s = None.
+Proof. exact reach_rec_whole. Qed.
+Print Assumptions c16_announcement_cleared_as_a_whole.
+
 (* the processed-tip marker written in the same transaction is the tip of the best chain *)
 Theorem c16_tip_marker : forall s C, reach s C ->
   match C with [] => True | b :: _ => tip s = Some (ab_idx b) end.
